@@ -190,3 +190,117 @@ def apply(check, repo, rep, rule: str, rel_filter, sk_filter=lambda construct: T
                      finding=Finding(rule, sk.construct, "emitted code tests an Optional[int] local for truthiness: offset 0 is treated as missing", f"{sk.construct.split('::')[-1]} emits a truthiness test of {names}, which holds None or an offset", {"names": names}))
 
 
+
+
+# ----------------------------------------------------------------------------- FIND-SENTINEL
+FIND_METHODS = ("find", "rfind")
+
+
+def _search_names(tree: ast.AST) -> tuple[set[str], set[str]]:
+    """(names holding one search result, names holding a collection of search results) - local def-use, to a fixpoint."""
+    single: set[str] = set()
+    many: set[str] = set()
+
+    def is_find(e: ast.expr) -> bool:
+        return isinstance(e, ast.Call) and isinstance(e.func, ast.Attribute) and e.func.attr in FIND_METHODS
+
+    def is_result(e: ast.expr) -> bool:
+        if is_find(e) or (isinstance(e, ast.Name) and e.id in single):
+            return True
+        if isinstance(e, ast.Call) and isinstance(e.func, ast.Name) and e.func.id in ("min", "max") and e.args and all(is_result(a) or is_collection(a) for a in e.args):
+            return True
+        return isinstance(e, ast.IfExp) and is_result(e.body) and is_result(e.orelse)
+
+    def is_collection(e: ast.expr) -> bool:
+        if isinstance(e, ast.Name) and e.id in many:
+            return True
+        if isinstance(e, (ast.ListComp, ast.GeneratorExp, ast.SetComp)) and len(e.generators) >= 1:
+            return is_result(e.elt)
+        if isinstance(e, (ast.List, ast.Tuple, ast.Set)) and e.elts:
+            return all(is_result(x) for x in e.elts)
+        return isinstance(e, ast.Call) and isinstance(e.func, ast.Name) and e.func.id in ("list", "tuple", "sorted", "filter") and bool(e.args) and is_collection(e.args[-1])
+
+    for _ in range(4):
+        before = (len(single), len(many))
+        for n in ast.walk(tree):
+            if isinstance(n, ast.comprehension) and isinstance(n.target, ast.Name) and is_collection(n.iter):
+                single.add(n.target.id)
+            elif isinstance(n, ast.For) and isinstance(n.target, ast.Name) and is_collection(n.iter):
+                single.add(n.target.id)
+            elif isinstance(n, (ast.Assign, ast.AnnAssign, ast.NamedExpr)):
+                tgt = n.targets[0] if isinstance(n, ast.Assign) and len(n.targets) == 1 else getattr(n, "target", None)
+                val = n.value
+                if isinstance(tgt, ast.Name) and val is not None:
+                    if is_result(val):
+                        single.add(tgt.id)
+                    elif is_collection(val):
+                        many.add(tgt.id)
+        if (len(single), len(many)) == before:
+            break
+    return single, many
+
+
+def find_sentinel_sites(tree: ast.AST) -> list[tuple[str, str]]:
+    """(kind, text): a search result (str.find: -1 when absent, else an absolute offset) compared with 0 / 1 or tested
+    for truth.  `x != -1`, `x == -1`, `x < 0`, `x >= 0` and comparisons with other positions are the sound tests."""
+    single, _many = _search_names(tree)
+
+    def is_res(e: ast.expr) -> bool:
+        return (isinstance(e, ast.Name) and e.id in single) or (isinstance(e, ast.Call) and isinstance(e.func, ast.Attribute) and e.func.attr in FIND_METHODS)
+
+    out: list[tuple[str, str]] = []
+    for n in ast.walk(tree):
+        if isinstance(n, ast.Compare) and len(n.ops) == 1:
+            left, op, right = n.left, n.ops[0], n.comparators[0]
+            for a, b, flip in ((left, right, False), (right, left, True)):
+                if is_res(a) and isinstance(b, ast.Constant) and isinstance(b.value, int) and not isinstance(b.value, bool):
+                    o = type(op).__name__
+                    if flip:
+                        o = {"Lt": "Gt", "Gt": "Lt", "LtE": "GtE", "GtE": "LtE"}.get(o, o)
+                    v = b.value
+                    sound = (v == -1 and o in ("Eq", "NotEq", "Gt", "LtE")) or (v == 0 and o in ("Lt", "GtE"))
+                    if not sound and v in (0, 1, -1):
+                        out.append(("compared with a constant that singles out offset 0", ast.unparse(n)))
+    for ctx, e in bool_operands(tree):
+        if is_res(e):
+            out.append((f"tested for truth ({ctx})", ast.unparse(e)))
+    return sorted(set(out))
+
+
+def apply_find_sentinel(check, repo, rep, rule: str, rel_filter, sk_filter=lambda construct: True) -> None:
+    """FIND-SENTINEL: offset 0 is an ordinary search result; only -1 means "not found"."""
+    import textwrap
+
+    n_fn = 0
+    for rel in repo.py_files:
+        if not rel_filter(rel):
+            continue
+        for fn in ast.walk(repo.mod(rel).tree):
+            if not isinstance(fn, ast.FunctionDef) or fn.name in DISPLAY:
+                continue
+            if not any(isinstance(c, ast.Call) and isinstance(c.func, ast.Attribute) and c.func.attr in FIND_METHODS for c in ast.walk(fn)):
+                continue
+            n_fn += 1
+            construct = f"{rel}::{qualname_of(repo.mod(rel), fn)}"
+            sites = find_sentinel_sites(fn)
+            sig = "a search result is compared with 0 or tested for truth: a hit at offset 0 counts as no hit"
+            check.oblige(rule, construct, "search results are tested against the sentinel -1 only" if not sites else sig, not sites,
+                         finding=Finding(rule, construct, sig, f"{construct.split('::')[-1]}: {sig}: " + "; ".join(f"`{t}` ({k})" for k, t in sites), {"sites": [t for _, t in sites]}))
+    check.count("search_result_functions", n_fn)
+    seen = set()
+    for _label, sk in rep.skeleton_sources:
+        if not sk_filter(sk.construct) or ".find(" not in sk.source:
+            continue
+        try:
+            tree = ast.parse(textwrap.dedent(sk.source))
+        except SyntaxError:
+            continue  # C01 SYNTAX
+        sites = find_sentinel_sites(tree)
+        key = (sk.construct, tuple(sites))
+        if key in seen:
+            continue
+        seen.add(key)
+        check.count("search_result_skeletons")
+        sig = "emitted code compares a search result with 0 or tests it for truth: a hit at offset 0 counts as no hit"
+        check.oblige(rule, sk.construct, "emitted code tests search results against the sentinel -1 only" if not sites else sig, not sites,
+                     finding=Finding(rule, sk.construct, sig, f"{sk.construct.split('::')[-1]}: {sig}: " + "; ".join(f"`{t}` ({k})" for k, t in sites), {"sites": [t for _, t in sites]}))
